@@ -9,6 +9,7 @@
    (3) [pip] = GEOS on simple rings is correspondence only. *)
 From Coq Require Import QArith ZArith NArith Bool List.
 From CR Require Import Base.QMod Model.Spatial Proofs.Spatial.
+From CR Require Import Model.ShapeCache Proofs.ShapeCache.
 Import ListNotations.
 Open Scope Q_scope.
 
@@ -85,6 +86,89 @@ Example C06_nonvacuous :
    rect_contains R (1, 1) = true /\ rect_contains R (3, 1) = false /\ inside_cw (corners R) (3, 1) = false).
 Proof. vm_compute. repeat split; congruence. Qed.
 
+(* ---- shapes that were queried and then changed through their public setters (Model/ShapeCache.v) ----------------
+   The geometry a Rectangle / Circle / Polygon caches is what recomputation from its CURRENT length, width, center,
+   orientation / radius, center / vertices gives, after every history of setters and queries on a constructed
+   object, and every query answers like the object freshly constructed from the current values - so the set an
+   object denotes is the one the theorems above describe for its current values.  Geometry abstract; [true] selects
+   the repaired setters (fix: 26019d9, f1d0f2d, 81f16ab), [false] the setters as found, for which both statements
+   are refuted. *)
+Section ShapeSetters.
+  Variables num pt verts geom : Type.
+  Variable rect_verts : num -> num -> pt -> num -> verts.
+  Variable poly_geom : verts -> geom.
+  Variable circ_geom : num -> pt -> geom.
+  Variable box_of : verts -> verts.
+
+  Theorem C06_rectangle_setters_coherent : forall l w c o ops,
+    r_coherent num pt verts geom rect_verts poly_geom
+      (rrun num pt verts geom rect_verts poly_geom true (rect_new num pt verts geom l w c o) ops).
+  Proof.
+    exact (fun l w c o ops => rrun_coherent num pt verts geom rect_verts poly_geom ops _
+                                (rect_new_coherent num pt verts geom rect_verts poly_geom l w c o)).
+  Qed.
+  Theorem C06_rectangle_history_answers_as_fresh : forall l w c o ops q,
+    let r := rrun num pt verts geom rect_verts poly_geom true (rect_new num pt verts geom l w c o) ops in
+    snd (rstep num pt verts geom rect_verts poly_geom true r q)
+    = snd (rstep num pt verts geom rect_verts poly_geom true (r_rebuilt num pt verts geom r) q).
+  Proof. exact (rect_history_answers num pt verts geom rect_verts poly_geom). Qed.
+
+  Theorem C06_circle_setters_coherent : forall r c ops,
+    c_coherent num pt geom circ_geom (crun num pt geom circ_geom true (circ_new num pt geom r c) ops).
+  Proof.
+    exact (fun r c ops => crun_coherent num pt geom circ_geom ops _ (circ_new_coherent num pt geom circ_geom r c)).
+  Qed.
+  Theorem C06_circle_history_answers_as_fresh : forall r c ops q,
+    let s := crun num pt geom circ_geom true (circ_new num pt geom r c) ops in
+    snd (cstep num pt geom circ_geom true s q) = snd (cstep num pt geom circ_geom true (c_rebuilt num pt geom s) q).
+  Proof.
+    exact (fun r c ops q => cstep_answers_like_rebuilt num pt geom circ_geom _ q
+             (crun_coherent num pt geom circ_geom ops _ (circ_new_coherent num pt geom circ_geom r c))).
+  Qed.
+
+  Theorem C06_polygon_setter_coherent : forall v ops,
+    p_coherent verts geom poly_geom box_of (prun verts geom poly_geom box_of true (poly_new verts geom poly_geom box_of v) ops).
+  Proof.
+    exact (fun v ops => prun_coherent verts geom poly_geom box_of ops _ (poly_new_coherent verts geom poly_geom box_of v)).
+  Qed.
+  Theorem C06_polygon_history_answers_as_fresh : forall v ops q,
+    let s := prun verts geom poly_geom box_of true (poly_new verts geom poly_geom box_of v) ops in
+    snd (pstep verts geom poly_geom box_of true s q)
+    = snd (pstep verts geom poly_geom box_of true (poly_new verts geom poly_geom box_of (p_v verts geom s)) q).
+  Proof.
+    exact (fun v ops q => pstep_answers_like_rebuilt verts geom poly_geom box_of _ q
+             (prun_coherent verts geom poly_geom box_of ops _ (poly_new_coherent verts geom poly_geom box_of v))).
+  Qed.
+End ShapeSetters.
+
+(* the setters as they were found: query, then assign - the cache is stale and the next answer is the old one *)
+Local Close Scope Q_scope.
+Local Open Scope nat_scope.
+Theorem C06_rectangle_setters_unrepaired_refuted :
+  let r := rrun nat nat nat nat tok_verts tok_geom false (rect_new nat nat nat nat 4 2 0 0) [RQGeom; RSetL 10] in
+  ~ r_coherent nat nat nat nat tok_verts tok_geom r /\
+  snd (rstep nat nat nat nat tok_verts tok_geom false r RQVerts) = RVerts 6 /\
+  snd (rstep nat nat nat nat tok_verts tok_geom false (r_rebuilt nat nat nat nat r) RQVerts) = RVerts 12.
+Proof. exact rect_unrepaired_refuted. Qed.
+Theorem C06_circle_setters_unrepaired_refuted :
+  let s := crun nat nat nat tok_circ false (circ_new nat nat nat 1 0) [CQGeom; CSetR 5] in
+  ~ c_coherent nat nat nat tok_circ s /\
+  snd (cstep nat nat nat tok_circ false s CQGeom) = Some 1 /\
+  snd (cstep nat nat nat tok_circ false (c_rebuilt nat nat nat s) CQGeom) = Some 5.
+Proof. exact circ_unrepaired_refuted. Qed.
+Theorem C06_polygon_setter_unrepaired_refuted :
+  let s := prun nat nat tok_geom (fun v => v) false (poly_new nat nat tok_geom (fun v => v) 3) [PSetV 8] in
+  ~ p_coherent nat nat tok_geom (fun v => v) s /\
+  snd (pstep nat nat tok_geom (fun v => v) false s PQGeom) = Some 3 /\ p_box nat nat s = 8.
+Proof. exact poly_unrepaired_refuted. Qed.
+Example C06_setters_nonvacuous :
+  let r := rrun nat nat nat nat tok_verts tok_geom true (rect_new nat nat nat nat 4 2 0 0) [RQGeom] in
+  r_verts nat nat nat nat r = Some 6 /\ r_geom nat nat nat nat r = Some 6 /\
+  r_verts nat nat nat nat (fst (rstep nat nat nat nat tok_verts tok_geom true r (RSetL 10))) = None /\
+  snd (rstep nat nat nat nat tok_verts tok_geom true
+         (rrun nat nat nat nat tok_verts tok_geom true r [RSetL 10]) RQVerts) = RVerts 12.
+Proof. exact rect_repaired_example. Qed.
+
 Print Assumptions C06_index_mirrors_lanelets.
 Print Assumptions C06_lookup_is_scan.
 Print Assumptions C06_find_by_position.
@@ -100,3 +184,13 @@ Print Assumptions C06_rect_box_convex.
 Print Assumptions C06_rect_box_axis.
 Print Assumptions C06_group_union.
 Print Assumptions C06_nonvacuous.
+Print Assumptions C06_rectangle_setters_coherent.
+Print Assumptions C06_rectangle_history_answers_as_fresh.
+Print Assumptions C06_circle_setters_coherent.
+Print Assumptions C06_circle_history_answers_as_fresh.
+Print Assumptions C06_polygon_setter_coherent.
+Print Assumptions C06_polygon_history_answers_as_fresh.
+Print Assumptions C06_rectangle_setters_unrepaired_refuted.
+Print Assumptions C06_circle_setters_unrepaired_refuted.
+Print Assumptions C06_polygon_setter_unrepaired_refuted.
+Print Assumptions C06_setters_nonvacuous.
